@@ -177,7 +177,8 @@ def run(tier):
             for k in range(0, len(perms), 24):
                 tasks.append((d, label, rows, perms[k : k + 24], "all permutations"))
     # single-attribute deviations x rotations (every row comes first once)
-    dev_dates = dates if thorough else dates[1:2]
+    dev_dates = dates[2::6] if thorough else dates[1:2]
+    allperm_dates = set(dev_dates[:2])
     for d in dev_dates:
         year = int(d[:4])
         for name in popgen.LIBRARY:
@@ -185,7 +186,7 @@ def run(tier):
             n = len(rows)
             if n < 2:
                 continue
-            if thorough and n <= 4:
+            if thorough and n <= 3 and d in allperm_dates:
                 perms = list(itertools.permutations(range(n)))
             else:
                 perms = [tuple(range(k, n)) + tuple(range(k)) for k in range(1, n)] + [tuple(reversed(range(n)))]
